@@ -1,15 +1,16 @@
 """C14  Every execution result stands alone, whatever was run before, after or beside it.
 
 Static part: coq/theories/C14 (Model = seeded generator + parallel helpers on top of the result
-state machine C03/ModelResult.v; Props = results_standalone_refuted with its 4-operation witness,
-results_standalone_partial, one_execution_standalone, parallel_exec_results, seed_reproducible).
+state machine C03/ModelResult.v; Props = results_standalone for ALL histories, the historical
+4-operation witness of the sharing defect on the model of the old code, one_execution_standalone,
+parallel_exec_results, seed_reproducible).
 
 Correspondence (this file): random histories of <= 10 operations with <= 3 executions of ONE
 circuit object (different dyadic initial states and shot counts), accessor calls on all results
 interleaved, circuit.final_state; the implementation's draws are fed to the model and every
 output is compared exactly inside Coq; the outputs of the implementation are then judged by the
-Coq specification `spec_verdicts` (one admissible list of shots per result).  The witness of
-results_standalone_refuted is replayed on the real code.  parallel_execution /
+Coq specification `spec_verdicts` (one admissible list of shots per result).  The histories that
+exposed the former sharing of M.result between results are replayed on the real code.  parallel_execution /
 parallel_circuits_execution / parallel_parametrized_execution run with processes = 1..3 under a
 timeout; seeding is checked by re-running with the same seed.
 """
@@ -87,9 +88,6 @@ def part_witness(run, be):
     run.notes["witness_histories_violating_on_the_real_code"] = f"{reproduced}/{len(ws)}"
     if reproduced:
         run.refuted.append("results_standalone")
-    else:
-        run.notes["witness_note"] = ("the witness of results_standalone_refuted no longer violates on the real code: "
-                                     "the model (shared M.result) no longer describes the tree")
 
 
 # ------------------------------------------------------------------ random histories
@@ -395,6 +393,72 @@ def part_repeated_sharing(run, be, count):
     if not bad:
         run.oblige("test:repeated_execution_results_standalone", True, "test")
 
+
+# ------------------------------------------------------------------ Clifford results of one circuit object
+CLIFFORD_KEY = "standalone:clifford_shared_M_result"
+
+
+def part_clifford(run, be_np, count):
+    """quantum_info/clifford.py has its own copy of the samples/frequencies logic: two executions of
+    one circuit object on the Clifford backend from different basis stabiliser states and with
+    different shot counts; every view of each result is judged by the Coq oracle against the
+    result's OWN execution (shots_okb: count and support; explainsb: views)."""
+    from qibo import Circuit, gates
+    from qibo.backends import CliffordBackend
+    cb = CliffordBackend()
+    items, meta = [], []
+    for i in range(count):
+        crng = random.Random(f"{run.seed}:clifford:{i}")
+        n = crng.randint(1, 3)
+        regs = random_registers(crng, n)
+        c = c03.make_circuit(n, regs)
+        results, execs = [], []
+        for _ in range(2):
+            x = [crng.randint(0, 1) for _ in range(n)]
+            prep = Circuit(n)
+            for q in range(n):
+                if x[q]:
+                    prep.add(gates.X(q))
+            init = cb.execute_circuit(prep).symplectic_matrix if any(x) else None
+            ns = crng.randint(1, 6)
+            results.append(cb.execute_circuit(c, initial_state=init, nshots=ns))
+            execs.append((x, ns))
+        order = [0, 1] if crng.random() < 0.5 else [1, 0]
+        info = {"part": "clifford", "case": i, "n": n, "registers": regs, "read_order": order,
+                "executions": [{"basis_state_bits": x, "nshots": ns} for x, ns in execs]}
+        run.case({"clifford": info}, execs[0] != execs[1])
+        if i == 0:
+            run.sample(info)
+        cfg = f"(mkcfg {n}%nat {c03.nat_list_list(regs)})"
+        for t in order:
+            r = results[t]
+            x, ns = execs[t]
+            w = [0] * 2 ** n
+            w[int("".join(map(str, x)), 2)] = 1
+            S = [int(v) for v in np.asarray(r.samples(binary=False)).tolist()]
+            info["executions"][t]["samples"] = S
+            items.append((f"cl{i}:r{t}:shots", f"shots_okb {cfg} {c03.z_list(w)} {ns}%nat {c03.nat_list(S)}"))
+            meta.append((f"cl{i}:r{t}:shots", info, t, "shots"))
+            for label, op, out in c03.view_terms(r, c.measurements, regs, "clifford", run, info, report_shape=False):
+                items.append((f"cl{i}:r{t}:{label}", f"explainsb {cfg} {c03.z_list(w)} {c03.nat_list(S)} ({op}) ({out})"))
+                meta.append((f"cl{i}:r{t}:{label}", info, t, label))
+    res, _ = run.coq_bools("clifford.v", c03.HEADER, items, timeout=600)
+    if res is None:
+        run.find("clifford:coq-failed", "generated file did not compile", {}, concrete=False)
+        return
+    bad = 0
+    for label, info, t, view in meta:
+        if not res[label]:
+            bad += 1
+            what = ("samples of a Clifford result have the wrong count or zero probability for its own execution"
+                    if view == "shots" else "a view of a Clifford result is not the same data as its own samples")
+            run.find(f"{CLIFFORD_KEY}:{'shots' if view == 'shots' else 'views'}", what, dict(info, result=t, view=view))
+    run.notes["clifford_views_not_own"] = bad
+    if bad:
+        run.refuted.append("clifford_results_standalone")
+    else:
+        run.oblige("test:clifford_results_standalone", True, "test")
+
 # ------------------------------------------------------------------ main
 RULE = ("histories: n<=3, registers = random partition of a random qubit subset in permuted order; 1..3 executions of one circuit object "
         "with different dyadic states (30% basis states) and 1..8 shots at random positions among <=10 operations; accessors "
@@ -402,13 +466,14 @@ RULE = ("histories: n<=3, registers = random partition of a random qubit subset 
         "non-trivial = >=2 executions and >=1 sampling accessor.  witness: the history of results_standalone_refuted and two variants, "
         "replayed on the real code.  seed: same script twice on fresh circuits and once more on the same circuit.  parallel: "
         "parallel_execution / parallel_circuits_execution / parallel_parametrized_execution with processes 1..3, 2..4 tasks, under a 90 s timeout.  "
-        "repeated: two shot-by-shot executions (collapsing measurement) of one circuit object, all views of both results judged against their own samples.")
+        "repeated: two shot-by-shot executions (collapsing measurement) of one circuit object, all views of both results judged against their own samples.  "
+        "clifford: two executions of one circuit object on the Clifford backend from different basis stabiliser states / shot counts, read in random order.")
 
 
 def budgets(tier):
     if tier == "thorough":
-        return {"hist": 3000, "seed": 200, "par": 90, "rep": 150}
-    return {"hist": 300, "seed": 40, "par": 18, "rep": 30}
+        return {"hist": 3000, "seed": 200, "par": 90, "rep": 150, "cliff": 120}
+    return {"hist": 300, "seed": 40, "par": 18, "rep": 30, "cliff": 24}
 
 
 def main(run):
@@ -422,13 +487,13 @@ def main(run):
     names = static_obligations(run, "C14/Props")
     if run.tier == "thorough":
         c03.coqchk(run, "QV.C14.Props")
-    run.not_proved += ["results_standalone (full statement): refuted, see results_standalone_refuted / results_standalone_partial"]
     b = budgets(run.tier)
     part_witness(run, be)
     part_histories(run, be, b["hist"])
     part_seed(run, be, b["seed"])
     part_parallel(run, be, b["par"])
     part_repeated_sharing(run, be, b["rep"])
+    part_clifford(run, be, b["cliff"])
     run.refuted = list(dict.fromkeys(run.refuted))
     return run.finish(rule=RULE)
 
@@ -449,6 +514,8 @@ def replay(run, data):
         part_seed(run, be, rp["case"] + 1)
     elif part == "parallel":
         part_parallel(run, be, rp["case"] + 1)
+    elif part == "clifford":
+        part_clifford(run, be, rp["case"] + 1)
     elif part == "repeated_sharing":
         part_repeated_sharing(run, be, rp["case"] + 1)
     return run.finish(rule="replay of one recorded case")
